@@ -43,6 +43,11 @@ def base_programs():
     yield "plain2", ("prog", "exp", "s", ("uid", "org_id"), ("ret", MULTI))
     yield "plain3", ("prog", "exp", None, ("b", "a", "c"), ("ret", MULTI))
     yield "plain4", ("prog", "exp", "x", ("d", "b", "a", "c"), ("ret", MULTI))
+    # names that differ only by case / by an underscore / by a digit (ties in a careless ordering)
+    yield "case2", ("prog", "exp", "x", ("uid", "UID"), ("ret", MULTI))
+    yield "case3", ("prog", "exp", None, ("Session", "session", "SESSION"), ("ret", MULTI))
+    yield "mixed3", ("prog", "exp", "y", ("b", "B", "_b"), ("ret", MULTI))
+    yield "digit3", ("prog", "exp", None, ("f10", "f9", "f1"), ("ret", MULTI))
     yield "sharedcond", ("prog", "exp", "s", ("uid", "f"), ("if", ("cmp", ("id", "f"), "in", ("tup", (("lit", 1), ("lit", 2), ("lit", 3)))), ("ret", MULTI), ("else", ("ret", (("Z", "1"), ("Y", "1"))))))
     for P in (1, 2, 3):
         for j, sk in enumerate(esh._C(P)):
